@@ -11,7 +11,7 @@ COMM = '''
 
 
 def unit():
-    lib = Mod('pcbc_lib', 'pcbc/src/lib.rs', items=[Sel('fn xor', fns={'xor': K.xor_fn()})])
+    lib = Mod('pcbc_lib', 'pcbc/src/lib.rs', items=[Sel('fn xor', fns={'xor': K.xor_fn(props=P_REC)})])
     dec = K.std_block_mode_mod(
         'pcbc', 'dec', 'pcbc/src/decrypt.rs', 'pcbc_dec_step', uses='use super::pcbc_lib::xor;',
         init_fns=K.init_plain(('C09', 'C02')), state_fns=K.state_plain(), props_rec=P_REC,
